@@ -395,13 +395,22 @@ func floorAt(doneAt []int, floors []uint64, k int) uint64 {
 
 // RunHistory enumerates all crash points of one history.
 func RunHistory(r *evid.Run, its []item, steps []int, repeated bool) {
+	runHistory(r, its, steps, repeated, "")
+}
+
+// RunHistoryExt lets other checks (C08) enumerate the crash points of a history.
+func RunHistoryExt(r *evid.Run, steps []int, prefix string) {
+	runHistory(r, items(), steps, false, prefix)
+}
+
+func runHistory(r *evid.Run, its []item, steps []int, repeated bool, prefix string) {
 	p := mkPlan(its, steps)
 	// numbering run
 	env := fsmx.NewEnv()
 	env.FS.Keep = true
 	num := exec(its, p, env)
 	if num.err != "" {
-		r.Violate("no-crash-run-error/"+short(num.err), num.err, Case{Steps: steps, Crash: -1, Desc: descr(its, steps)})
+		r.Violate(prefix+"no-crash-run-error/"+short(num.err), num.err, Case{Steps: steps, Crash: -1, Desc: descr(its, steps)})
 		return
 	}
 	n := env.FS.Count()
@@ -423,7 +432,7 @@ func RunHistory(r *evid.Run, its []item, steps []int, repeated bool) {
 				c.Op = oplog[k].Kind + " " + oplog[k].Path
 			}
 			for _, v := range vs {
-				r.Violate(v.sig, v.detail+fmt.Sprintf(" [history %v, crash before op %d (%s)]", c.Desc, k, c.Op), c)
+				r.Violate(prefix+v.sig, v.detail+fmt.Sprintf(" [history %v, crash before op %d (%s)]", c.Desc, k, c.Op), c)
 			}
 			continue
 		}
@@ -436,7 +445,7 @@ func RunHistory(r *evid.Run, its []item, steps []int, repeated bool) {
 				if len(vs) > 0 {
 					c2.Desc = descr(its, steps)
 					for _, v := range vs {
-						r.Violate(v.sig, v.detail+fmt.Sprintf(" [history %v, crash before op %d, second crash before recovery op %d]", c2.Desc, k, k2), c2)
+						r.Violate(prefix+v.sig, v.detail+fmt.Sprintf(" [history %v, crash before op %d, second crash before recovery op %d]", c2.Desc, k, k2), c2)
 					}
 				}
 			}
